@@ -71,7 +71,7 @@ def run_case(case, ctx):
             d = PageHinkley(**kw)
             sh = Shadow(lambda: PHModel(**kw), lambda m: m.state)
         tag = "%s:%s" % (det, kw.get("direction"))
-        return drive(det, d, sh, kw, xs, known if det == "CUSUM" else None, tag, ctx)
+        return drive(det, d, sh, kw, xs, known if det == "CUSUM" else None, tag, ctx, lit.get("dtype"))
     rng = gen.rng_for(case["seed"], det)
     n = int(rng.integers(150, 900))
     if det == "CUSUM":
@@ -82,8 +82,9 @@ def run_case(case, ctx):
         known = bool(rng.random() < 0.5)
         offset = float(rng.choice([0.0, 0.0, 10.0, 1e6]))
         xs = gen.level_shift_stream(rng, n, seg=(2, 90), offset=offset, heavy=True)
+        xs, typed, unit = vary_units(rng, xs, ctx)
         if known:
-            tgt, sd = float(np.mean(xs[:20])), float(np.std(xs[:20]) + 0.1)
+            tgt, sd = float(np.mean(xs[:20])), float(np.std(xs[:20]) + 0.1 * unit)
         else:
             tgt, sd = None, None
         kw = dict(target=tgt, sd_hat=sd, burn_in=burn, delta=delta, threshold=thr, direction=direction)
@@ -97,18 +98,58 @@ def run_case(case, ctx):
         direction = ["positive", "negative"][int(rng.integers(0, 2))]
         offset = float(rng.choice([0.0, 3.0, 10.0, 10.0, 100.0, 1e6]))
         xs = gen.level_shift_stream(rng, n, seg=(2, 90), offset=offset, heavy=True)
+        xs, typed, unit = vary_units(rng, xs, ctx)
+        delta *= unit
         kw = dict(delta=delta, threshold=thr, burn_in=burn, direction=direction)
         d = PageHinkley(**kw)
         sh = Shadow(lambda: PHModel(**kw), lambda m: m.state)
         tag = "PH:%s" % direction
-    return drive(det, d, sh, kw, xs, known if det == "CUSUM" else None, tag, ctx)
+    return drive(det, d, sh, kw, xs, known if det == "CUSUM" else None, tag, ctx, typed)
 
 
-def drive(det, d, sh, kw, xs, known, tag, ctx):
+UNITS = (2.0 ** -30, 2.0 ** -40, 2.0 ** 40)
+# float32 is left out: both detectors then compute in single precision, which no property clause forbids and the
+# double-precision specification cannot follow to 1e-9
+DTYPES = ("uint8", "uint16", "int16", "int64", "bool")
+
+
+def vary_units(rng, xs, ctx):
+    """the same kind of stream in another unit of measurement (powers of two, so the scaled history is the original one
+    bit for bit up to the exponent) or delivered with a narrow numpy dtype (counts, 0/1 outcomes)"""
+    r = rng.random()
+    if r < 0.15:
+        u = float(rng.choice(UNITS))
+        ctx.count("streams_in_other_units")
+        ctx.count("unit:%g" % u)
+        return [v * u for v in xs], None, u
+    if r < 0.35:
+        typed = str(rng.choice(DTYPES))
+        lo_, hi_ = min(xs), max(xs)
+        if typed == "bool":
+            med = float(np.median(xs))
+            xs = [float(v > med) for v in xs]
+        else:
+            top = {"uint8": 255, "uint16": 60000, "int16": 30000, "int64": 10 ** 6}[typed]
+            xs = [float(int(round((v - lo_) / (hi_ - lo_ + 1e-12) * top))) for v in xs]
+            if typed in ("int16", "int64"):
+                xs = [v - top // 2 for v in xs]
+        ctx.count("typed_input_streams:" + typed)
+        return xs, typed, 1.0
+    return xs, None, 1.0
+
+
+def present(x, typed, i):
+    if not typed:
+        return x
+    tx = np.dtype(typed).type(x)
+    return tx if i % 2 else np.array([[tx]])
+
+
+def drive(det, d, sh, kw, xs, known, tag, ctx, typed=None):
     alarms = 0
     for i, x in enumerate(xs):
         try:
-            d.update(x)
+            d.update(present(x, typed, i))
             got = d.drift_state
         except ValueError as e:
             if det == "CUSUM" and "Standard deviation is 0" in str(e):
@@ -128,7 +169,7 @@ def drive(det, d, sh, kw, xs, known, tag, ctx):
             ctx.violation("C04/%s/state" % det,
                           "%s(%s) update %d (epoch position %d): implementation %r, specification %r" % (
                               det, kw, i, len(m.epoch), got, exp),
-                          detector=det, params=kw, stream=xs[: i + 1], step=i, got=got, expected=exp,
+                          detector=det, params=kw, stream=xs[: i + 1], step=i, got=got, expected=exp, dtype=typed,
                           margins=[mg for (_, _, mg) in m.cmp.log])
             break
         if got == "raise":
